@@ -239,6 +239,55 @@ pub fn random_forced(rng: &mut Rng64, max_moves: usize) -> Pos {
     }
 }
 
+/// Random position with a pawn of the side to move one step from promotion (square in front of
+/// it empty), a few enemy pawns and sometimes an enemy piece: the best lines contain a
+/// promotion followed by moves of the promoted piece.
+pub fn random_promotion_race(rng: &mut Rng64) -> Pos {
+    loop {
+        let white = rng.chance(500);
+        let (c, o) = if white { (0u8, BLACK_BIT) } else { (BLACK_BIT, 0u8) };
+        let mut board = [EMPTY; 64];
+        let file = rng.below(8) as usize;
+        let (from, to) = if white { (48 + file, 56 + file) } else { (8 + file, file) };
+        board[from] = PAWN | c;
+        let mut put = |pc: u8, lo: usize, hi: usize, board: &mut [u8; 64], rng: &mut Rng64| {
+            for _ in 0..40 {
+                let s = lo + rng.below((hi - lo) as u64) as usize;
+                if board[s] == EMPTY && s != to {
+                    board[s] = pc;
+                    return;
+                }
+            }
+        };
+        put(KING | c, 0, 64, &mut board, rng);
+        put(KING | o, 0, 64, &mut board, rng);
+        // enemy pawns near their own home ranks, a second own pawn now and then
+        for _ in 0..rng.below(4) {
+            let (lo, hi) = if white { (40, 56) } else { (8, 24) };
+            put(PAWN | o, lo, hi, &mut board, rng);
+        }
+        if rng.chance(300) {
+            let (lo, hi) = if white { (24, 48) } else { (16, 40) };
+            put(PAWN | c, lo, hi, &mut board, rng);
+        }
+        if rng.chance(400) {
+            put(*rng.pick(&[KNIGHT, BISHOP, ROOK]) | o, 0, 64, &mut board, rng);
+        }
+        let p = Pos { board, side: if white { 0 } else { 1 }, castling: 0, ep: None, halfmove: 0, fullmove: 1 };
+        if !p.is_sane() {
+            continue;
+        }
+        let (Some(wk), Some(bk)) = (p.king_sq(0), p.king_sq(1)) else { continue };
+        let (wk, bk) = (wk as i8, bk as i8);
+        if (wk % 8 - bk % 8).abs() <= 1 && (wk / 8 - bk / 8).abs() <= 1 {
+            continue;
+        }
+        if p.legal_moves().iter().any(|m| m.promo != 0) {
+            return p;
+        }
+    }
+}
+
 /// Random tablebase position in which the side to move mates in exactly `n` plies.
 pub fn tb_win_in(rng: &mut Rng64, tb: &Tb, n: u32) -> Pos {
     loop {
